@@ -289,8 +289,15 @@ def _assignify(body: list[ast.stmt], target: ast.AST | None) -> list[ast.stmt] |
                 return None
             out.append(ast.Try(tb or [ast.Pass()], hs, ob, []))
             return out
+        if isinstance(st, ast.With) and not rest and _returns_in(st.body):
+            # a trailing `with` whose body returns: the value is assigned inside, the context is left either way
+            b = _assignify(st.body, target)
+            if b is None:
+                return None
+            out.append(ast.With(st.items, b or [ast.Pass()]))
+            return out
         if _returns_in([st]):
-            return None  # return inside a loop / with: not supported
+            return None  # return inside a loop: not supported
         out.append(st)
     # fell off the end without return: value is None
     if target is not None:
@@ -489,15 +496,13 @@ class _Inliner:
             return pre + b + [ast.Assign([tgt], ast.Name(tmpname, ast.Load()), lineno=getattr(st, "lineno", 0))]
         # E. nested in a larger expression: hoist
         tmpname = f"__val{tag}"
+        if isinstance(st, ast.While):
+            return None  # re-evaluated each iteration: cannot hoist
         hoist = ast.Assign([ast.Name(tmpname, ast.Store())], call, lineno=getattr(st, "lineno", 0))
-        new_st = _replace_node(st, call, ast.Name(tmpname, ast.Load()))
         exp = self.expand(hoist, call, H)
         if exp is None:
-            return None
-        if isinstance(st, (ast.If, ast.While, ast.For, ast.With)):
-            if isinstance(st, ast.While):
-                return None  # re-evaluated each iteration: cannot hoist
-            return exp + [new_st]
+            return None  # (the statement is left untouched)
+        new_st = _replace_node(st, call, ast.Name(tmpname, ast.Load()))
         return exp + [new_st]
 
 
